@@ -111,7 +111,8 @@ type world struct {
 	stop chan struct{}
 	byID map[string]*svcSpec
 
-	queries [][]string // scope queries of the case (oracle)
+	queries  [][]string // scope queries of the case (oracle)
+	deferred string     // a known-class failure, reported only when the case shows nothing else
 }
 
 // ---------------------------------------------------------------- encoding helpers
